@@ -774,27 +774,11 @@ def c13(tier, rng):
     # programs that overwrite whatever a run could conceivably leave behind for the next one in the same process:
     # every built-in name, the program's own globals, a runtime error followed by nothing
     for name in NAT.values():
-        progs.append(f'{P} {name};
-{name} = 7;
-{P} {name};
-')
-        progs.append(f'{name} = nil;
-{P} {name};
-{P} {N["len"]}([1, 2, 3]);
-{P} {N["max"]}(1, 2);
-')
-    progs.append(f'{VAR} g = 1;
-{FUN} bump() {{ g = g + 1; {RET} g; }}
-{P} bump();
-{P} bump();
-{P} nope;
-')
-    progs.append(f'{P} "before";
-{P} 1 / 0;
-')
-    progs.append(f'{P} {N["input"]}("? ");
-{P} {N["input"]}();
-')
+        progs.append(f'{P} {name};\n{name} = 7;\n{P} {name};\n')
+        progs.append(f'{name} = nil;\n{P} {name};\n{P} {N["len"]}([1, 2, 3]);\n{P} {N["max"]}(1, 2);\n')
+    progs.append(f'{VAR} g = 1;\n{FUN} bump() {{ g = g + 1; {RET} g; }}\n{P} bump();\n{P} bump();\n{P} nope;\n')
+    progs.append(f'{P} "before";\n{P} 1 / 0;\n')
+    progs.append(f'{P} {N["input"]}("? ");\n{P} {N["input"]}();\n')
     for j, src in enumerate(progs):
         for k in range(reps):
             cases.append(prog_case(src, 'repeat-in-process', stdin=b'7\nx\n', group=f'p{j}'))
